@@ -85,7 +85,7 @@ class C01(Check):
             'the low and of the high half of the debug id on two bases, (d) all ordered sequences of <=3 decodes over a '
             'pool of 8 records that share sub-fields (result must equal the solo decode), (e) all ordered triples over a 9-record pool '
             'reached through the container parsers (a v2 dump; v3 dumps for every composition of the 3 records into 1..3 chunks; two '
-            'v2 parses alive at once under every interleaving; records beginning with the v2 magic / a v3 tag; inter-chunk fillers of 4060..4099 bytes; chunks of 255..258 and 300 records next to another chunk; dumps that begin 1..4100 bytes into the stream; fillers ending with the first 1..6 bytes of the tag that follows; thread maps listing one thread id several times; 1..7 bytes in front of an events tag), (f) every event id of the bundled code table (thorough: under each of the 4 qualifiers) as the first and third record of a 4-record dump whose later records carry OLDER timestamps, through a v2 dump, a two-chunk v3 dump and the facade listing. Oracle: independent byte-slicing '
+            'v2 parses alive at once under every interleaving; records beginning with the v2 magic / a v3 tag; inter-chunk fillers of 4060..4099 bytes; chunks of 255..258 and 300 records next to another chunk; dumps that begin 1..4100 bytes into the stream; fillers ending with the first 1..6 bytes of the tag that follows; thread maps listing one thread id several times; 1..7 bytes in front of an events tag; every combination of 4 values of the 64-bit word and of the tick frequency of a v2 header, non-zero time-of-day / reserved bytes, non-zero uninterpreted bytes in a v3 chunk header), (f) every event id of the bundled code table (thorough: under each of the 4 qualifiers) as the first and third record of a 4-record dump whose later records carry OLDER timestamps, through a v2 dump, a two-chunk v3 dump and the facade listing. Oracle: independent byte-slicing '
             'decoder, the algebraic clauses, rebuild of the first 52 bytes, single-bit non-interference. Distinct by '
             'construction per sub-space; non-trivial = the record differs from its base (or, for histories, has length >=2).')
     assumptions = ('2^512 records are not enumerable: a special case keyed on a specific value outside the enumerated shapes '
@@ -281,6 +281,21 @@ class C01(Check):
                 acc.case(nontrivial=True, transitions=3)
                 if got != exp:
                     acc.violation('record-decoded-differently-through-container:' + label.split('-pad')[0].split('-of-')[0], {'kind': 'container-maps', 'label': label}, {'got': repr(got)[:200]})
+            # header fields the decoding of records does not depend on: the 64-bit word, the tick frequency, the time-of-day and reserved
+            # bytes of a v2 header; the 8 uninterpreted bytes that follow the length of a v3 events chunk
+            recs = [P[0], P[1], P[2]]
+            exp = [ref_decode(r) for r in recs]
+            variants = [(f'v2-header-is64={i}-tick={t}', B.v2([(1, 2, 'a')], 0, recs, is_64bit=i, tick=t, tod=tod, reserved=res))
+                        for i in (0, 1, 2, 0xffffffff) for t in (0, 1, 24000000, 2 ** 64 - 1) for tod, res in ((bytes(12), bytes(0x100)), (b'\x5a' * 12, b'\xa5' * 0x100))]
+            variants += [(f'v3-uninterpreted-bytes-{u.hex()}', B.v3([(1, 2, 'a')], [recs[:1], recs[1:]], unknown8=u)) for u in (b'\x01' + bytes(7), b'\xff' * 8, bytes(7) + b'\x01')]
+            for label, blob in variants:
+                try:
+                    got = events(blob)
+                except Exception as ex:
+                    got = repr(ex)
+                acc.case(nontrivial=True, transitions=3)
+                if got != exp:
+                    acc.violation('record-decoded-differently-through-container:' + label.split('=')[0].split('-bytes')[0], {'kind': 'container-header', 'label': label}, {'got': repr(got)[:200]})
             # fillers that END with the first 1..6 bytes of the tag that follows them (a scanner that does not fall back after a
             # partial match misses the tag)
             recs = [P[0], P[1], P[2]]
